@@ -8,6 +8,7 @@
 From MW Require Import PyBase Nodes Builder Flatten BuilderProofs Canon.
 From MW Require Import HeadingFrag HeadingFragProofs.
 From MW Require Import EntityFrag EntityFragProofs.
+From MW Require Import MixFrag MixFragProofs.
 
 Theorem C14_canonical_tokens_give_canonical_tree_partial :
   forall c, canon_toks (fl_code c) = true -> canon_code c = true.
@@ -40,3 +41,9 @@ Theorem C14_entity_fragment_canonical : forall markers names msize s, canon_code
 Proof. exact efrag_canonical. Qed.
 
 Print Assumptions C14_entity_fragment_canonical.
+
+(* canonical in EVERY node list: the top level and the title of every heading *)
+Theorem C14_mixed_fragment_canonical : forall markers names msize md s, canon_code (mfrag_nodes markers names msize md s) = true.
+Proof. exact mfrag_canonical. Qed.
+
+Print Assumptions C14_mixed_fragment_canonical.
